@@ -29,7 +29,31 @@ THEOREMS = [
     'CC.C20_no_global_writes', 'CC.C20_no_unknown_callee', 'CC.C20_no_unknown_decorator',
     'CC.C20_history', 'CC.C20_history_frame', 'CC.C20_pure_history', 'CC.C20_loaders_sound', 'CC.C20_loader_histories',
 ]
-OPEN_STATEMENTS = []
+# round 5 (lean/CC/Properties/C20More.lean, helper lemmas lean/CC/Proofs/EffectsMore.lean): more corollaries for every sound machine;
+# the generated summary read group by group (transformers, nodal analysis, nodal state-space model, multi-frequency solutions,
+# support table, formatter absent); the executable models of CC/Model/{Transform,MNA,StateSpace,MultiFreq,Fmt}.lean as machines
+LEAN_MODULE_EXTRA = ['CC.Properties.C20More']
+THEOREMS += [
+    'CC.C20_history_append', 'CC.C20_history_perm', 'CC.C20_history_swap', 'CC.C20_effects_transformers_check',
+    'CC.C20_effects_transformers_pure', 'CC.C20_effects_mna_check', 'CC.C20_effects_mna_pure', 'CC.C20_effects_state_check',
+    'CC.C20_effects_state_pure', 'CC.C20_effects_multifreq_check', 'CC.C20_effects_multifreq_pure',
+    'CC.C20_effects_support_rows', 'CC.C20_effects_support_pure', 'CC.C20_effects_fmt_absent_scope',
+    'CC.C20_effects_fmt_absent_support', 'CC.C20_effects_fmt_absent', 'CC.C20_group_history',
+    'CC.C20_transformers_any_machine', 'CC.C20_mna_any_machine', 'CC.C20_state_any_machine', 'CC.C20_multifreq_any_machine',
+    'CC.C20_transformers_sound', 'CC.C20_transformers_histories', 'CC.C20_transformers_call_removeShort',
+    'CC.C20_transformers_call_passive', 'CC.C20_transformers_same_description', 'CC.C20_mna_sound', 'CC.C20_mna_histories',
+    'CC.C20_mna_call_voltage', 'CC.C20_mna_same_description', 'CC.C20_state_sound', 'CC.C20_state_histories',
+    'CC.C20_state_call_cRowVoltage', 'CC.C20_state_same_description', 'CC.C20_state_builder_keeps_description',
+    'CC.C20_multifreq_sound', 'CC.C20_multifreq_histories', 'CC.C20_multifreq_call_series',
+    'CC.C20_multifreq_same_description', 'CC.C20_fmt_sound', 'CC.C20_fmt_histories', 'CC.C20_fmt_call_str',
+    'CC.C20_fmt_same_description', 'CC.C20_fmt_not_in_summary',
+]
+OPEN_STATEMENTS = [
+    # not Lean statements (nothing in the generated table to state them over) — kept here so that the evidence says what is NOT proved:
+    'returned objects are fresh (share no mutable part with an argument): the effect summary has no column for the returned value; identity / snapshot oracle only',
+    'formatter code (Utils.py, SimpleCircuit/Display.py) is not in the effect summary (CC.C20_effects_fmt_absent): only the formatter MODEL is shown repeatable',
+    'state that is consumed rather than written (a stored generator, seeded change C20-3B) is not a write of the effect analysis: object-level oracle only',
+]
 ASSUMPTIONS = [
     'the generated effect summary over-approximates what the Python functions write (validated dynamically on every run by deep snapshots over random histories; proved for the loader model: C20_loaders_sound)',
     'callable parameters are resolved to their default / functools.partial binding; callables supplied by the caller are assumed not to write their arguments (listed in CC/Gen/Effects.lean: assumedCallables)',
@@ -38,6 +62,14 @@ ASSUMPTIONS = [
     'C20_frame_exceptions_exact is rfl on the hand-written empty list (a registration), the fact about the code is C20_frame_rows / C20_frame_all',
     'interpreter-level state (numpy/scipy caches, hash randomisation) is outside the model',
     'the theorems are about the extracted effect model; what Python does to real objects is observed dynamically only',
+    'C20More: Machine.Sound of the transformer / MNA / state-space / multi-frequency / formatter machines holds by construction (their steps are Lean '
+    'functions that hand the pool back); the fact about the code is the group statements C20_effects_<group>_pure (decide +kernel over the generated table) '
+    'and, through them, C20_<group>_any_machine for every semantics that respects the summary',
+    'C20More: the state-space machine takes the two numpy.linalg.inv calls as a function of the description (deterministic library routine); the time-domain '
+    'getters are modelled at one instant on the lines (phasor, cos wt, sin wt) the object holds; a missing keep= argument (shared default list) is not an operation '
+    'of the transformer machine (the default objects are the subject of C20_defaults)',
+    'C20More: group membership is by qualified-name prefix within scopeRows (the rows of the anchor files); the support table is covered by '
+    'C20_effects_support_rows (exactly three rows with a non-empty write set: elements.impedance_value/admittance_value [phi], complex_value [X])',
 ]
 
 # --------------------------------------------------------------------------- canonical deep snapshots
